@@ -571,6 +571,25 @@ encodeResponse:
             *alertLevel = SSL_ALERT_LEVEL_FATAL;
         }
     }
+    if (rc == SSL_FULL && useOutbufForResponse)
+    {
+        /* Unparsed input follows this record (e.g. the compatibility
+           ChangeCipherSpec after a HelloRetryRequest). The caller's
+           SSL_FULL path re-encodes into inbuf and drops that input,
+           so make room in outbuf here instead. */
+        unsigned char *nb = psRealloc(ssl->outbuf,
+                ssl->outlen + *requiredLen, ssl->bufferPool);
+        if (nb == NULL)
+        {
+            *error = PS_MEM_FAIL;
+            return MATRIXSSL_ERROR;
+        }
+        ssl->outbuf = nb;
+        ssl->outsize = ssl->outlen + *requiredLen;
+        tmp.buf = tmp.start = tmp.end = ssl->outbuf + ssl->outlen;
+        tmp.size = ssl->outsize - ssl->outlen;
+        rc = sslEncodeResponse(ssl, &tmp, requiredLen);
+    }
     if (rc == SSL_FULL)
     {
         ssl->flags |= SSL_FLAGS_NEED_ENCODE;
